@@ -57,6 +57,15 @@ func runTimeouts(c TOCase) []ev.Violation {
 		rec.Inconclusive("setup: " + err.Error())
 		return nil
 	}
+	for i := range r.Raw {
+		r.Raw[i].DropBodies.Store(true) // the transcripts are not read here and would add up to gigabytes
+	}
+	defer func() {
+		for i := range r.Raw {
+			r.Raw[i].DropBodies.Store(false)
+			r.Raw[i].Reset()
+		}
+	}()
 	want := map[string][]byte{}
 	for i, p := range c.PauseMs {
 		pieces := make([]int, c.Pieces)
